@@ -179,6 +179,7 @@ class EventManager(Runnable):
                 log.warning("temporary error %s[%s] in event watcher", type(e), e)
             if self.__nmgr:
                 self.__nmgr.notify_from_exception(SourceEnum(self.side), e)
+            self._rewind_cursor(e)
             self.backoff()
         except CloudCursorError as e:
             log.exception("Cursor error... resetting cursor. %s", e)
@@ -190,7 +191,19 @@ class EventManager(Runnable):
             # this is separated from the main block because
             # it can be raised during reconnect in the exception handler and in do_unsafe
             self.need_auth = True
+            self._rewind_cursor()
             self.backoff()
+
+    def _rewind_cursor(self, error=None):
+        # events() has already advanced the provider's cursor past the event whose processing failed;
+        # go back to the last saved cursor so the unprocessed events are delivered again (events are hints)
+        if self.cursor is None or isinstance(error, CloudRootMissingError):
+            return
+        try:
+            if self.provider.current_cursor != self.cursor:
+                self.provider.current_cursor = self.cursor
+        except Exception as e:
+            log.debug("cannot rewind cursor: %s", e)
 
     def _do_walk_if_needed(self):
         if self.need_walk and self._root_oid:
